@@ -23,6 +23,7 @@ import (
 type Act struct {
 	A string `json:"a"`
 	R int    `json:"r"`
+	C int    `json:"c"`
 }
 
 type QSt struct {
@@ -38,9 +39,10 @@ type St struct {
 }
 
 type Step struct {
-	Act  Act `json:"act"`
-	Exp  St  `json:"exp"`
-	Alts int `json:"alts"`
+	Act  Act  `json:"act"`
+	Exp  St   `json:"exp"`
+	Alts int  `json:"alts"`
+	Exps []St `json:"exps"`
 }
 
 type Stim struct {
@@ -56,6 +58,7 @@ type Event struct {
 	St         St   `json:"st"`
 	Exp        St   `json:"exp"`
 	Alts       int  `json:"alts"`
+	Exps       []St `json:"exps"`
 	MaxTotal   int  `json:"maxTotal"`   // largest number of requests ever seen inside do at once
 	MaxPerPath int  `json:"maxPerPath"` // largest number inside do for one path
 	Settled    bool `json:"settled"`    // the observed state reached the state M predicts
@@ -89,6 +92,7 @@ type world struct {
 	keys       []uint64 // endpoint key per path (index path-1)
 	msgs       map[int]*pool.Message
 	cancels    map[int]context.CancelFunc
+	onFinish   map[int]func() // what the do function of a request does as its very last action
 }
 
 func (w *world) do(req *pool.Message) (*pool.Message, error) {
@@ -113,9 +117,13 @@ func (w *world) do(req *pool.Message) (*pool.Message, error) {
 	<-ch
 	w.mu.Lock()
 	delete(w.inDo, r)
+	last := w.onFinish[r]
 	w.mu.Unlock()
 	resp := pool.NewMessage(context.Background())
 	resp.SetCode(codes.Content)
+	if last != nil {
+		last() // e.g. cancel another request's context at the instant this one returns ("fincan")
+	}
 	return resp, nil
 }
 
@@ -163,7 +171,7 @@ func runOne(st Stim) Trace {
 	n := len(st.PathOf)
 	tr := Trace{T: st.T, EL: st.EL, L: st.L, PathOf: st.PathOf, Ev: []Event{}, Hung: []int{}, FinalQ: []QSt{}}
 	w := &world{inDo: map[int]bool{}, ret: map[int]string{}, finish: map[int]chan struct{}{}, pathOf: st.PathOf,
-		msgs: map[int]*pool.Message{}, cancels: map[int]context.CancelFunc{}}
+		msgs: map[int]*pool.Message{}, cancels: map[int]context.CancelFunc{}, onFinish: map[int]func(){}}
 	w.lim = limiter.New(int64(st.L), int64(st.EL), w.do, nil)
 	np := 0
 	for _, p := range st.PathOf {
@@ -203,20 +211,39 @@ func runOne(st Stim) Trace {
 			ch := w.finish[r]
 			w.mu.Unlock()
 			close(ch)
+		case "fincan":
+			w.mu.Lock()
+			ch := w.finish[r]
+			w.onFinish[r] = w.cancels[step.Act.C]
+			w.mu.Unlock()
+			close(ch)
 		}
-		settled := hooks.WaitFor(2*time.Second, func() bool { return same(w.snapshot(n), step.Exp) })
+		exps := step.Exps
+		if len(exps) == 0 {
+			exps = []St{step.Exp}
+		}
+		anyOf := func() bool {
+			sn := w.snapshot(n)
+			for _, e := range exps {
+				if same(sn, e) {
+					return true
+				}
+			}
+			return false
+		}
+		settled := hooks.WaitFor(2*time.Second, anyOf)
 		if settled {
 			// the predicted state must also be stable: give woken goroutines a chance to run on
 			for i := 0; i < 20; i++ {
 				time.Sleep(100 * time.Microsecond)
-				if !same(w.snapshot(n), step.Exp) {
+				if !anyOf() {
 					settled = false
 					break
 				}
 			}
 		}
 		w.mu.Lock()
-		ev := Event{Act: step.Act, Exp: step.Exp, Alts: step.Alts, MaxTotal: w.maxTotal, MaxPerPath: w.maxPerPath, Settled: settled}
+		ev := Event{Act: step.Act, Exp: step.Exp, Alts: step.Alts, Exps: exps, MaxTotal: w.maxTotal, MaxPerPath: w.maxPerPath, Settled: settled}
 		w.mu.Unlock()
 		ev.St = w.snapshot(n)
 		tr.Ev = append(tr.Ev, ev)
@@ -252,11 +279,12 @@ func runOne(st Stim) Trace {
 		}
 	}
 	sort.Ints(tr.Hung)
-	tr.Ev = append(tr.Ev, Event{Act: Act{"drain", 0}, MaxTotal: w.maxTotal, MaxPerPath: w.maxPerPath, Settled: tr.AllReturned})
+	tr.Ev = append(tr.Ev, Event{Act: Act{A: "drain"}, Exps: []St{}, MaxTotal: w.maxTotal, MaxPerPath: w.maxPerPath, Settled: tr.AllReturned})
 	w.mu.Unlock()
 	last := &tr.Ev[len(tr.Ev)-1]
 	last.St = w.snapshot(n)
 	last.Exp = last.St
+	last.Exps = []St{last.St}
 	last.Alts = 1
 	tr.FinalQ = last.St.Q
 	tr.QueueObjects = len(w.lim.VerifQueues())
